@@ -287,6 +287,7 @@ void sharp_case(vt::Rng& rng, int64_t icase, bool small_bundle = false)
 
     auto       solver = solver_t::all().get(id);
     const auto eps    = std::pow(10.0, rng.uniform(-8.0, -3.0));
+    int64_t    shaken = 0, pairs = 0; // number of curve-search / proximity parameters drawn (pair parameters among them)
     const auto evals  = id == "ellipsoid" ? int64_t{20000} : (rng.coin(1, 3) ? rng.pick(std::vector<int64_t>{100, 20000}) : static_cast<int64_t>(std::pow(10.0, rng.uniform(2.0, 4.3))));
     solver->parameter("solver::epsilon")   = eps;
     solver->parameter("solver::max_evals") = evals;
@@ -306,10 +307,41 @@ void sharp_case(vt::Rng& rng, int64_t icase, bool small_bundle = false)
                 }
                 if (const auto* r = std::get_if<parameter_t::frange_t>(&p0.storage()); r != nullptr)
                 {
-                    const auto v = r->m_value * std::pow(4.0, rng.uniform(-1.0, 1.0));
+                    auto v = r->m_value * std::pow(4.0, rng.uniform(-1.0, 1.0));
+                    if (rng.coin(1, 3))
+                    {
+                        // anywhere in the declared (open) domain, towards its ends: uniform if the domain is short, log-uniform otherwise
+                        const auto lo = r->m_min, hi = r->m_max;
+                        v = (hi - lo <= 100.0 && lo >= 1.0) ? lo + (hi - lo) * std::pow(10.0, rng.uniform(-3.0, -0.005))
+                          : (hi <= 1.0)                     ? (rng.coin() ? lo + (hi - lo) * rng.uniform(0.01, 0.99) : lo + (hi - lo) * std::pow(10.0, rng.uniform(-16.0, -0.005)))
+                                                            : lo + std::pow(10.0, rng.uniform(-6.0, std::log10(hi - lo) - 0.005));
+                    }
                     if (std::isfinite(v) && v > r->m_min && v < r->m_max)
                     {
                         solver->parameter(name) = v;
+                        shaken += 1;
+                    }
+                }
+                // the pair parameters: csearch::m1m2 (0 < m1 < m2 < 1) and prox::miu0_range (0 < min < max < 1e6)
+                if (const auto* r = std::get_if<parameter_t::fprange_t>(&p0.storage()); r != nullptr)
+                {
+                    double v1 = 0, v2 = 0;
+                    if (r->m_max <= 1.0)
+                    {
+                        v1 = r->m_min + (r->m_max - r->m_min) * (rng.coin(1, 4) ? std::pow(10.0, rng.uniform(-6.0, -0.3)) : rng.uniform(0.01, 0.98));
+                        v2 = v1 + (r->m_max - v1) * (rng.coin(1, 4) ? rng.pick(std::vector<double>{1e-3, 0.999}) : rng.uniform(0.02, 0.98));
+                    }
+                    else
+                    {
+                        const auto top = std::log10(r->m_max - r->m_min) - 0.005;
+                        v1 = r->m_min + std::pow(10.0, rng.uniform(-6.0, top - 0.01));
+                        v2 = rng.coin(1, 4) ? v1 * (1.0 + std::pow(10.0, rng.uniform(-6.0, -1.0))) : r->m_min + std::pow(10.0, rng.uniform(std::log10(v1 - r->m_min), top));
+                    }
+                    if (std::isfinite(v1) && std::isfinite(v2) && r->m_min < v1 && v1 < v2 && v2 < r->m_max)
+                    {
+                        solver->parameter(name) = std::make_tuple(v1, v2);
+                        shaken += 1;
+                        pairs += 1;
                     }
                 }
             }
@@ -359,7 +391,8 @@ void sharp_case(vt::Rng& rng, int64_t icase, bool small_bundle = false)
     vt::put(vt::J("Sharp").i("case", icase).s("solver", id).i("n", n).s("status", status).b("gapOK", gap <= bound).b("mustConverge", id == "ellipsoid" && n <= 6).i(
         "evals", nF + nG).b("linf", linf).i("eps_e12", static_cast<int64_t>(std::llround(eps * 1e12))).i(
         "dist_e6", static_cast<int64_t>(std::llround(dist0 * 1e6))).i("updates", watch.m_updates).b("cutsOK", watch.m_cutsOK).b("errsOK", watch.m_errsOK).b(
-        "sizeOK", watch.m_sizeOK).i("firstbad", watch.m_firstbad).i("worst_e6", static_cast<int64_t>(std::llround(std::min(watch.m_worst, 1e3) * 1e6))));
+        "sizeOK", watch.m_sizeOK).i("firstbad", watch.m_firstbad).i("worst_e6", static_cast<int64_t>(std::llround(std::min(watch.m_worst, 1e3) * 1e6))).i(
+        "shaken", shaken).i("pairs", pairs));
 }
 
 // the recorded finding (known_findings.json, C03): with epsilon <= 5e-8 and a start very close to the minimiser the ellipsoid method
